@@ -10,6 +10,8 @@ package main
 
 import (
 	"bufio"
+	"crypto/sha256"
+	"encoding/hex"
 	"encoding/json"
 	"fmt"
 	"os"
@@ -38,6 +40,15 @@ func main() {
 		usage()
 	}
 	setEnv()
+	if r := os.Getenv("VERIF_REPO"); r != "" && r != repoDir {
+		// check another copy of the repository (scratch worktree with a seeded change, snapshot of a
+		// background run): same module graph, the replace directive pointed at that copy
+		repoDir = r
+		if err := useAltModfile(); err != nil {
+			fmt.Fprintln(os.Stderr, "verif:", err)
+			os.Exit(3)
+		}
+	}
 	switch os.Args[1] {
 	case "build":
 		b, err := ensureBuild(false)
@@ -409,8 +420,8 @@ func cmdCheck(args []string) int {
 		}
 		return uks[i].key < uks[j].key
 	})
-	os.MkdirAll(filepath.Join(verifDir, "evidence", "replays"), 0o755)
-	old, _ := filepath.Glob(filepath.Join(verifDir, "evidence", "replays", id+"-*.json"))
+	os.MkdirAll(filepath.Join(evidenceRoot(), "replays"), 0o755)
+	old, _ := filepath.Glob(filepath.Join(evidenceRoot(), "replays", id+"-*.json"))
 	for _, f := range old {
 		os.Remove(f)
 	}
@@ -421,7 +432,7 @@ func cmdCheck(args []string) int {
 			continue
 		}
 		rp := vp.Replay{Property: id, Check: id, Tier: tier, Instance: h.inst.Name, Index: h.inst.Index, Rule: h.v.Rule, Key: h.v.Key, Msg: h.v.Msg, Choices: h.v.Choices, Input: h.v.Input, Blocked: h.v.Blocked}
-		path := filepath.Join(verifDir, "evidence", "replays", fmt.Sprintf("%s-%d.json", id, n+1))
+		path := filepath.Join(evidenceRoot(), "replays", fmt.Sprintf("%s-%d.json", id, n+1))
 		// confirm by replaying the recorded schedule (twice, identical logs) before reporting
 		bs, _ := json.MarshalIndent(rp, "", " ")
 		os.WriteFile(path, bs, 0o644)
@@ -475,9 +486,9 @@ func cmdCheck(args []string) int {
 		"wall_s":      wall,
 		"violations":  len(unknown),
 	}
-	os.MkdirAll(filepath.Join(verifDir, "evidence"), 0o755)
+	os.MkdirAll(filepath.Join(evidenceRoot()), 0o755)
 	eb, _ := json.MarshalIndent(ev, "", " ")
-	os.WriteFile(filepath.Join(verifDir, "evidence", id+".json"), eb, 0o644)
+	os.WriteFile(filepath.Join(evidenceRoot(), id+".json"), eb, 0o644)
 
 	fmt.Printf("%s %s: instances=%d/%d executions=%d states=%d transitions=%d distinct_outcomes=%d bound=%d (min completed %d) caps=%d unfinished=%d known=%d unknown=%d wall=%.1fs (build %.1fs)\n",
 		id, tier, a.instances-a.skipped, ls.N, a.execs, a.states, a.steps, len(distinct), a.maxBound, a.minBound, a.caps, a.incomplete+a.skipped, len(knownSeen), len(unknown), wall, buildS)
@@ -588,4 +599,37 @@ func providersOf(id string) []provider {
 		return []provider{{bin: "gencheck", level: "model_checking"}, {bin: "harness", level: "model_checking"}}
 	}
 	return []provider{{bin: "harness", level: "model_checking"}}
+}
+
+// useAltModfile writes a copy of /verif/go.mod whose replace directive points at repoDir and makes
+// every go command run in the verif module use it.
+func useAltModfile() error {
+	b, err := os.ReadFile(filepath.Join(verifDir, "go.mod"))
+	if err != nil {
+		return err
+	}
+	sum := sha256.Sum256([]byte(repoDir))
+	dir := filepath.Join(verifDir, ".cache", "altmod", hex.EncodeToString(sum[:6]))
+	if err := os.MkdirAll(dir, 0o755); err != nil {
+		return err
+	}
+	mod := strings.Replace(string(b), "=> /repo", "=> "+repoDir, 1)
+	if err := os.WriteFile(filepath.Join(dir, "go.mod"), []byte(mod), 0o644); err != nil {
+		return err
+	}
+	if sb, err := os.ReadFile(filepath.Join(verifDir, "go.sum")); err == nil {
+		os.WriteFile(filepath.Join(dir, "go.sum"), sb, 0o644)
+	}
+	os.Setenv("GOFLAGS", "-mod=mod -modfile="+filepath.Join(dir, "go.mod"))
+	return nil
+}
+
+// evidenceRoot: evidence of runs against another copy of the repository (VERIF_REPO) is kept apart;
+// /verif/evidence only ever describes /repo itself.
+func evidenceRoot() string {
+	if repoDir != "/repo" {
+		sum := sha256.Sum256([]byte(repoDir))
+		return filepath.Join(verifDir, ".cache", "alt-evidence", hex.EncodeToString(sum[:6]))
+	}
+	return filepath.Join(verifDir, "evidence")
 }
